@@ -51,12 +51,12 @@ for sid, meta, res in results:
     if own is None:
         own_s, keys = "not claimed", []
     else:
-        own_s = {0: "MISSED", 1: "caught", 2: "analysis-error"}[own[0]]
+        own_s = {0: "MISSED", 1: "caught", 2: "analysis-error"}.get(own[0], "killed")
         keys = own[1] or own[2]
-    others = ["%s(%s)" % (q, {1: "viol", 2: "err"}[rc]) for q, (rc, k, e) in res.items() if q != p and rc != 0]
+    others = ["%s(%s)" % (q, {1: "viol", 2: "err"}.get(rc, "killed")) for q, (rc, k, e) in res.items() if q != p and rc != 0]
     # remember, per check, how this seeded change is answered: the thorough tier re-checks it in memory
     if not only or True:
-        meta["detection"] = {q: {0: "silent", 1: "violation", 2: "analysis-error"}[rc] for q, (rc, k, e) in res.items()}
+        meta["detection"] = {q: {0: "silent", 1: "violation", 2: "analysis-error"}.get(rc, "killed") for q, (rc, k, e) in res.items()}
         meta["detected_by_rules"] = {q: sorted({x.split(":")[0] for x in k})[:6] for q, (rc, k, e) in res.items() if rc == 1}
         json.dump(meta, open(os.path.join(SEEDED, sid, "meta.json"), "w"), indent=1)
     anyc = (own and own[0] == 1) or any(rc == 1 for q, (rc, k, e) in res.items())
